@@ -17,10 +17,10 @@ from vmon.libutil import load_definition, monitored
 LEVEL = "exploration"
 SHARDS = {"quick": 16, "thorough": 16}
 KINDS = ("integer", "float", "enumerated", "boolean", "string", "binary", "abstime", "reltime")
-MUST = ["datasets", "cells.compared", "mode.raw", "mode.derived", "files.multi", "files.truncated_tail_before_next_file", "apids.multi", "polymorphic.rejected", "reordered_fields.datasets", "manyrows.datasets", "files.form.generator", "files.form.iter", "files.form.tuple"] + [f"cells.{k}" for k in KINDS]
+MUST = ["datasets", "cells.compared", "mode.raw", "mode.derived", "files.multi", "files.truncated_tail_before_next_file", "kwargs.skip_header_bytes", "definition.form.str-path", "definition.form.Path", "apids.multi", "polymorphic.rejected", "reordered_fields.datasets", "manyrows.datasets", "files.form.generator", "files.form.iter", "files.form.tuple"] + [f"cells.{k}" for k in KINDS]
 RULE = ("case = (flat definition: abstract root + one concrete child container per APID, each with a fixed list of "
         "parameters of random kinds/encodings; packet files: 1-3 files (30% of them ending in a truncated packet, which is no "
-        "packet of the stream), handed over as path / list / tuple / generator / iterator / map / Path list, 1-4 APIDs interleaved, values at encoding extremes "
+        "packet of the stream; sometimes with foreign prefix bytes skipped through the skip_header_bytes keyword), the definition as object / str path / Path, the files handed over as path / list / tuple / generator / iterator / map / Path list, 1-4 APIDs interleaved, values at encoding extremes "
         "- 0, max, sign bit, NaN/inf, empty and NUL-terminated strings/bytes; mode raw/derived). create_dataset's result is "
         "compared cell by cell with the reference decoder. distinct_nontrivial = distinct (mode, parameter kind, encoding "
         "variant, value class) signatures of compared cells where value class in {zero, negative, max-unsigned, huge>2^63, "
@@ -128,6 +128,23 @@ def run(ctx):
                 continue
             pb = gen.PacketBuilder(doc, rng)
             nfiles = rng.randrange(1, 4)
+            # keyword arguments handed through to the packet generator: foreign bytes before every packet skipped with
+            # skip_header_bytes, explicit read size, progress display
+            skip = rng.choice([0, 0, 0, 4, 1])
+            gkw = {}
+            if skip:
+                gkw["skip_header_bytes"] = skip
+                ctx.count("kwargs.skip_header_bytes")
+            if rng.random() < 0.25:
+                gkw["buffer_read_size_bytes"] = rng.choice([1, 7, 4096])
+                ctx.count("kwargs.buffer_read_size_bytes")
+            # the definition may be handed over as an object or as the path (str / Path) of its XTCE file
+            defn_form = rng.choice(["object", "object", "str-path", "Path"])
+            ctx.count(f"definition.form.{defn_form}")
+            defn_path = os.path.join(scratch, f"d{i}.xml")
+            if defn_form != "object":
+                with open(defn_path, "wb") as f:
+                    f.write(render.render_doc(doc))
             files, stream_packets = [], []
             for fi in range(nfiles):
                 raws = [pb.build(f"APID_{rng.choice(apids)}")[0] for _ in range(rng.randrange(1, 9))]
@@ -142,7 +159,7 @@ def run(ctx):
                     if fi < nfiles - 1:
                         ctx.count("files.truncated_tail_before_next_file")
                 with open(path, "wb") as f:
-                    f.write(b"".join(raws) + tail)
+                    f.write(b"".join(bytes([0xE0 | (j_ & 0xF)]) * skip + r_ for j_, r_ in enumerate(raws)) + (bytes([0xEE]) * skip + tail if tail else b""))
                 files.append(path)
                 stream_packets += raws
             outs = [ref.walk(doc, r) for r in stream_packets]
@@ -168,8 +185,12 @@ def run(ctx):
                 arg = {"single": lambda: files[0], "list": lambda: list(files), "tuple": lambda: tuple(files),
                        "generator": lambda: (f_ for f_ in files), "iter": lambda: iter(files), "map": lambda: map(str, files),
                        "pathlist": lambda: [pathlib.Path(f_) for f_ in files]}[form]()
-                st = monitored(xarr.create_dataset, arg, ld.value, raw_mode)
-                wit = {"doc": i, "mode": "raw" if raw_mode else "derived", "files": nfiles, "apids": sorted(rows), "packet_files_form": form}
+                import contextlib, io as _io, pathlib as _pl
+                darg = ld.value if defn_form == "object" else defn_path if defn_form == "str-path" else _pl.Path(defn_path)
+                with contextlib.redirect_stdout(_io.StringIO()):
+                    st = monitored(lambda: xarr.create_dataset(arg, darg, raw_mode, **gkw))
+                wit = {"doc": i, "mode": "raw" if raw_mode else "derived", "files": nfiles, "apids": sorted(rows), "packet_files_form": form,
+                       "definition_form": defn_form, "generator_kwargs": dict(gkw)}
                 if st.exc is not None:
                     ctx.violation(f"exception/{type(st.exc).__name__}/{'raw' if raw_mode else 'derived'}/{blame(doc, layout, rows, raw_mode, st.exc)}",
                                   f"create_dataset raised {st.exc!r} for a flat-per-APID stream", dict(wit, exception=repr(st.exc)[:400]))
